@@ -851,7 +851,41 @@ def _m_sorted(I, args, kwargs, node):
     raise Unsupported("sorted() of a symbolic sequence")
 
 
+def _m_hash(I, args, kwargs, node):
+    """hash(x): exactly one argument (TypeError otherwise); an uninterpreted function of the value(s)."""
+    if len(args) != 1 or kwargs:
+        I.raise_py(TypeError, node)
+    from .opaque import ufun
+    v = args[0]
+    parts = list(v) if isinstance(v, tuple) else [v]
+    acc = z3.IntVal(len(parts))
+    h2 = ufun("hash.mix", z3.IntSort(), z3.IntSort(), z3.IntSort())
+    for p in parts:
+        if isinstance(p, SOpaque):
+            t = ufun("hash.obj", p.t.sort(), z3.IntSort())(p.t)
+        elif isinstance(p, SList):
+            t = ufun("hash.list", p.arr.sort(), z3.IntSort(), z3.IntSort())(p.arr, p.len)
+        elif isinstance(p, (str, SStr)):
+            t = ufun("hash.str", z3.IntSort(), z3.IntSort())(ops.str_term(p))
+        elif p is None:
+            t = z3.IntVal(-7)
+        elif ops.is_numeric(p):
+            t = ufun("hash.num", z3.RealSort(), z3.IntSort())(z3.ToReal(ops.num_term(p)[0]) if not ops.num_term(p)[1] else ops.num_term(p)[0])
+        elif inspect_isclass(p):
+            t = z3.IntVal(abs(hash(p.__name__)) % 100003)
+        else:
+            raise Unsupported(f"hash of {p!r}")
+        acc = h2(acc, t)
+    return SInt(acc)
+
+
+def inspect_isclass(p):
+    import inspect
+    return inspect.isclass(p)
+
+
 Engine.builtin_models = {
+    hash: _m_hash,
     set: _m_set, sum: _m_sum, sorted: _m_sorted,
     len: _m_len, isinstance: _m_isinstance, range: _m_range, list: _m_list, tuple: _m_tuple,
     str: _m_str, enumerate: _m_enumerate, zip: _m_zip, hasattr: _m_hasattr, getattr: _m_getattr,
